@@ -339,18 +339,52 @@ auto apply_obs(int kind, int var, Str const& s, Args<Str, View> const& A) -> lon
 }
 
 // ================================================================================================ driver
-template <typename Char, size_t N>
+// character traits whose eq()/lt() fold ASCII case: every search, comparison and affix test of the string must go through
+// the Traits parameter exactly as std::basic_string<char, Traits> does (find("AB") matches "ab", compare orders 'B' < 'c')
+inline constexpr auto fold_char(char c) noexcept -> char { return (c >= 'A' && c <= 'Z') ? static_cast<char>(c - 'A' + 'a') : c; }
+
+template <typename Base>
+struct FoldTraitsOf : Base {
+    static constexpr auto eq(char a, char b) noexcept -> bool { return fold_char(a) == fold_char(b); }
+    static constexpr auto lt(char a, char b) noexcept -> bool { return fold_char(a) < fold_char(b); }
+    static constexpr auto compare(char const* a, char const* b, size_t n) noexcept -> int
+    {
+        for (size_t i = 0; i < n; ++i) {
+            if (lt(a[i], b[i])) {
+                return -1;
+            }
+            if (lt(b[i], a[i])) {
+                return 1;
+            }
+        }
+        return 0;
+    }
+    static constexpr auto find(char const* s, size_t n, char const& c) noexcept -> char const*
+    {
+        for (size_t i = 0; i < n; ++i) {
+            if (eq(s[i], c)) {
+                return s + i;
+            }
+        }
+        return nullptr;
+    }
+};
+using EtlFold = FoldTraitsOf<etl::char_traits<char>>;
+using StdFold = FoldTraitsOf<std::char_traits<char>>;
+
+template <typename Char, size_t N, typename STr = etl::char_traits<Char>, typename MTr = std::char_traits<Char>>
 struct StrDriver {
-    using S  = etl::basic_inplace_string<Char, N>;
-    using M  = std::basic_string<Char>;
-    using SV = etl::basic_string_view<Char>;
-    using MV = std::basic_string_view<Char>;
+    static constexpr bool folding = !std::is_same_v<MTr, std::char_traits<Char>>;
+    using S  = etl::basic_inplace_string<Char, N, STr>;
+    using M  = std::basic_string<Char, MTr>;
+    using SV = etl::basic_string_view<Char, STr>;
+    using MV = std::basic_string_view<Char, MTr>;
     using SA = Args<S, SV>;
     using MA = Args<M, MV>;
     static constexpr bool checks = SIM_CHECKS != 0;
     // a second capacity for mixed-capacity comparison / concatenation
     static constexpr size_t N2 = N < 16 ? 20 : 9;
-    using S2 = etl::basic_inplace_string<Char, N2>;
+    using S2 = etl::basic_inplace_string<Char, N2, STr>;
 
     Plan const& plan;
     Ctx& ctx;
@@ -373,7 +407,11 @@ struct StrDriver {
     // numeric order (0x0100 vs 0x00FF on a little-endian machine).
     static auto code(int64_t i) -> Char
     {
-        if constexpr (sizeof(Char) == 1) {
+        if constexpr (folding) {
+            // both cases of few letters, so that most matches exist only through the traits
+            constexpr unsigned char table[8] = {'a', 'B', 'A', 'b', 'c', 'C', 0xC1, 'd'};
+            return static_cast<Char>(table[static_cast<uint64_t>(i) % 8]);
+        } else if constexpr (sizeof(Char) == 1) {
             constexpr unsigned char table[8] = {'a', 'b', 0x80, 'c', 0xFF, 'd', 0x7F, 'e'};
             return static_cast<Char>(table[static_cast<uint64_t>(i) % 8]);
         } else {
@@ -795,7 +833,7 @@ struct StrDriver {
         }
         if (kind == K_NUMBER) {
             begin_op("number", a, static_cast<int>(st.k[2] % 3));
-            if constexpr (etl::is_same_v<Char, char>) {
+            if constexpr (etl::is_same_v<Char, char> && !folding) {
                 step_number(st, a);
             } else {
                 skip();
@@ -1796,10 +1834,10 @@ struct StrDriver {
     }
 };
 
-template <typename Char, size_t N>
+template <typename Char, size_t N, typename STr = etl::char_traits<Char>, typename MTr = std::char_traits<Char>>
 void add_one(char const* cname)
 {
-    using D = StrDriver<Char, N>;
+    using D = StrDriver<Char, N, STr, MTr>;
     Scenario s;
     s.family = "str";
     s.name   = std::string("inplace_string<") + cname + "," + std::to_string(N) + ">";
@@ -1833,7 +1871,13 @@ void register_str_3();
 void register_str_4();
 
 #if SIM_PART == 0
-void register_str_0() { add_all<char>("char"); }
+void register_str_0()
+{
+    add_all<char>("char");
+    add_one<char, 7, EtlFold, StdFold>("char/fold_traits");
+    add_one<char, 15, EtlFold, StdFold>("char/fold_traits");
+    add_one<char, 31, EtlFold, StdFold>("char/fold_traits");
+}
 
 auto main(int argc, char** argv) -> int
 {
